@@ -653,6 +653,17 @@ def _oracle_tmpl(case, obs):
         seen += ns
     if sorted(seen) != list(range(len(case["writes"]))):
         return f"records on disk {sorted(seen)} != records written 0..{len(case['writes']) - 1}"
+    # consecutive records of one template path go to ONE file (a file is only renamed away when the writer comes back
+    # to a path whose file already exists, never in the middle of a run)
+    where = {}
+    for nm, c in files:
+        for k, n in c:
+            if k != "pre":
+                where[n] = nm
+    for i in range(1, len(case["writes"])):
+        if case["writes"][i][0] == case["writes"][i - 1][0] and where.get(i) != where.get(i - 1):
+            return (f"records #{i - 1} and #{i} were written one after the other to the same template path "
+                    f"{case['writes'][i][0] + case['ext']!r} but sit in different files ({where.get(i - 1)}, {where.get(i)})")
     # the file the template names holds the latest run of its key
     last_key = {}
     for i, (k, _) in enumerate(case["writes"]):
